@@ -97,6 +97,10 @@ type simpleRequest struct {
 	resp       *RespValue
 	hooks      []func(*simpleRequest)
 	done       chan struct{}
+
+	// compressed indicates the values in body are already compressed, a
+	// redirected request passes the filters of another client again.
+	compressed bool
 }
 
 func newSimpleRequest(v *RespValue) *simpleRequest {
